@@ -27,6 +27,14 @@ Theorem C16_new_is_calendar_arithmetic : forall y mo d h mi s ms,
 Proof. exact new_is_calendar_arithmetic. Qed.
 Print Assumptions C16_new_is_calendar_arithmetic.
 
+(* the same result as a count of microseconds: midnight of the first of the normalised month (closed-form day number)
+   plus the signed total of the remaining components *)
+Theorem C16_new_value : forall y mo d h mi s ms w,
+  datetime_new y mo d h mi s ms = DOk w ->
+  w = days_from_civil (norm_year y mo, norm_month mo, 1) * US_DAY + dn_total_ms d h mi s ms * 1000.
+Proof. exact new_value. Qed.
+Print Assumptions C16_new_value.
+
 (* the loops never exhaust their bound (fuel = |day| + 1 suffices for every integer input) *)
 Theorem C16_new_terminates : forall y mo d h mi s ms, datetime_new y mo d h mi s ms <> DFuel.
 Proof. exact new_never_fuel. Qed.
@@ -80,6 +88,14 @@ Theorem C16_iso_roundtrip : forall (off_local off_utc : Z -> Z) w,
 Proof. exact iso_roundtrip. Qed.
 Print Assumptions C16_iso_roundtrip.
 
+(* "exists in the zone" is the round trip naive -> aware -> UTC -> aware -> naive giving the same wall time back
+   (the definition the direct oracle uses on the implementation side) *)
+Theorem C16_exists_in_zone_meaning : forall (off_local off_utc : Z -> Z) w,
+  in_range w = true -> in_range (w - off_local w * US_SEC) = true ->
+  (exists_in_zone off_local off_utc w = true <-> exists o, astimezone_naive off_local off_utc w = DOk (w, o)).
+Proof. exact exists_iff_astimezone_fixpoint. Qed.
+Print Assumptions C16_exists_in_zone_meaning.
+
 Theorem C16_iso_roundtrip_whole_ms : forall (off_local off_utc : Z -> Z) w,
   in_range w = true -> w mod 1000 = 0 ->
   exists_in_zone off_local off_utc w = true ->
@@ -88,6 +104,16 @@ Theorem C16_iso_roundtrip_whole_ms : forall (off_local off_utc : Z -> Z) w,
   exists s, iso_format off_local off_utc w = DOk s /\ iso_parse off_utc s = Some w.
 Proof. exact iso_roundtrip_whole_ms. Qed.
 Print Assumptions C16_iso_roundtrip_whole_ms.
+
+(* without the existence hypothesis: parse (format w) is the zone's own normalisation of w (the wall time astimezone()
+   reports, e.g. 03:30 for a 02:30 that falls into a DST gap), truncated to the millisecond *)
+Theorem C16_iso_format_parse_general : forall (off_local off_utc : Z -> Z) w l o,
+  astimezone_naive off_local off_utc w = DOk (l, o) ->
+  (Z.abs o <? 86400) = true -> (o mod 60 =? 0) = true ->
+  (off_utc (trunc_ms l - o * US_SEC) =? o) = true ->
+  exists s, iso_format off_local off_utc w = DOk s /\ iso_parse off_utc s = Some (trunc_ms l).
+Proof. exact iso_format_parse_general. Qed.
+Print Assumptions C16_iso_format_parse_general.
 
 Theorem C16_iso_date_roundtrip : forall (off_utc : Z -> Z) w,
   in_range w = true -> iso_parse off_utc (iso_format_date w) = Some (w - w mod US_DAY).
@@ -100,6 +126,16 @@ Theorem C16_parse_total : forall (off_utc : Z -> Z) s,
   iso_parse off_utc s = None \/ exists w, iso_parse off_utc s = Some w /\ in_range w = true /\ w mod 1000 = 0.
 Proof. exact parse_total. Qed.
 Print Assumptions C16_parse_total.
+
+(* invalid text => null, declaratively: whatever parses to a datetime is a text of the grammar
+     YYYY-MM-DD            (decimal digits as Python's \d / int() read them, optionally one final newline)
+   | YYYY-MM-DDTHH:MM:SS[.f{1,6}](Z | +HH:MM | -HH:MM)      (ASCII digits)
+   ([is_date_text], [is_datetime_text] in Proofs/C16.v are existential statements about the characters, written
+   without reference to the parser) *)
+Theorem C16_parse_non_iso_is_null : forall (off_utc : Z -> Z) s,
+  ~ (is_date_text s \/ is_datetime_text s) -> iso_parse off_utc s = None.
+Proof. exact parse_non_iso_is_null. Qed.
+Print Assumptions C16_parse_non_iso_is_null.
 
 Theorem C16_parse_rejects_invalid_fields : forall (off_utc : Z -> Z) f o,
   0 <= f_year f < 10000 -> 0 <= f_month f < 100 -> 0 <= f_day f < 100 -> 0 <= f_hour f < 100 ->
